@@ -162,7 +162,8 @@ type Engine struct {
 	curFrame  *Frame
 	typeIDs   map[string]int
 	contracts map[string]*Contract
-	ifaceContracts map[string]*Contract // assumed contracts on interface methods / bodyless externals, by full name
+	ifaceAll map[string][]*Contract // assumed contracts on interface methods / externals / excluded functions, by full name; one per contract package
+	loopsFor map[string]*LoopAnn  // loop annotations scoped to one target
 	globals   []*GlobalInv
 	specPaths int
 	capVal    map[string]Val
